@@ -99,6 +99,124 @@ Proof.
   apply IH. congruence.
 Qed.
 
+(* ---------------------------------------------------------------- padding edges dropped at read
+   FlowParser._parse_next_row; every fact below holds for BOTH values of the regenerated probe
+   [padding_edges_dropped_at_read] (the proofs destruct the constant, they never compute it). *)
+Definition nontrivial (e : iedge) : bool := negb (is_trivial_iedge e).
+
+(* what the tree at hand does, as a case distinction that does not depend on the probe's value *)
+Lemma drop_padding_cases es :
+  drop_padding_edges es = es \/
+  drop_padding_edges es = match es with [] => [] | e :: more => e :: filter nontrivial more end.
+Proof. unfold drop_padding_edges. destruct padding_edges_dropped_at_read; [right|left]; reflexivity. Qed.
+
+(* the tree before the repair: rows are read as written *)
+Lemma drop_padding_off es : padding_edges_dropped_at_read = false -> drop_padding_edges es = es.
+Proof. intros H. unfold drop_padding_edges. rewrite H. reflexivity. Qed.
+Lemma drop_padding_on e more :
+  padding_edges_dropped_at_read = true -> drop_padding_edges (e :: more) = e :: filter nontrivial more.
+Proof. intros H. unfold drop_padding_edges. rewrite H. reflexivity. Qed.
+
+Lemma drop_padding_nil : drop_padding_edges [] = [].
+Proof. unfold drop_padding_edges. destruct padding_edges_dropped_at_read; reflexivity. Qed.
+
+(* the first edge is kept, whatever it is *)
+Lemma drop_padding_cons e more : exists more', drop_padding_edges (e :: more) = e :: more' /\ List.incl more' more.
+Proof.
+  unfold drop_padding_edges. destruct padding_edges_dropped_at_read.
+  - exists (filter nontrivial more). split; [reflexivity|]. intros x Hx. apply filter_In in Hx. tauto.
+  - exists more. split; [reflexivity|]. apply incl_refl.
+Qed.
+Lemma drop_padding_hd es : hd_error (drop_padding_edges es) = hd_error es.
+Proof.
+  destruct es as [|e more]; [rewrite drop_padding_nil; reflexivity|].
+  destruct (drop_padding_cons e more) as (more' & -> & _). reflexivity.
+Qed.
+Lemma drop_padding_nonempty es : es <> [] -> drop_padding_edges es <> [].
+Proof.
+  destruct es as [|e more]; [congruence|]. intros _.
+  destruct (drop_padding_cons e more) as (more' & -> & _). discriminate.
+Qed.
+
+Lemma filter_all {T} (f : T -> bool) l : forallb f l = true -> filter f l = l.
+Proof.
+  induction l as [|a l IH]; cbn; [reflexivity|]. intros H. apply andb_true_iff in H as [Ha Hl].
+  rewrite Ha, IH by exact Hl. reflexivity.
+Qed.
+
+(* a row without padding is read as written *)
+Lemma drop_padding_id es : forallb nontrivial (tl es) = true -> drop_padding_edges es = es.
+Proof.
+  intros H. destruct (drop_padding_cases es) as [E|E]; rewrite E; [reflexivity|].
+  destruct es as [|e more]; [reflexivity|]. cbn [tl] in H. rewrite filter_all by exact H. reflexivity.
+Qed.
+
+(* every non-trivial edge is kept, in order *)
+Lemma drop_padding_filter es : filter nontrivial (drop_padding_edges es) = filter nontrivial es.
+Proof.
+  destruct (drop_padding_cases es) as [E|E]; rewrite E; [reflexivity|].
+  destruct es as [|e more]; [reflexivity|]. cbn [filter].
+  assert (Hf : filter nontrivial (filter nontrivial more) = filter nontrivial more).
+  { apply filter_all. apply forallb_forall. intros x Hx. apply filter_In in Hx. tauto. }
+  rewrite Hf. reflexivity.
+Qed.
+Lemma drop_padding_keeps es e : In e es -> nontrivial e = true -> In e (drop_padding_edges es).
+Proof.
+  intros Hin Hn.
+  assert (H : In e (filter nontrivial (drop_padding_edges es))).
+  { rewrite drop_padding_filter. apply filter_In. split; assumption. }
+  apply filter_In in H. tauto.
+Qed.
+(* nothing is invented *)
+Lemma drop_padding_incl es : List.incl (drop_padding_edges es) es.
+Proof.
+  destruct (drop_padding_cases es) as [E|E]; rewrite E; [apply incl_refl|].
+  destruct es as [|e more]; [apply incl_refl|].
+  intros x [Hx|Hx]; [left; exact Hx|right]. apply filter_In in Hx. tauto.
+Qed.
+
+Lemma filter_length_le {T} (f : T -> bool) l : length (filter f l) <= length l.
+Proof. induction l as [|a l IH]; cbn; [lia|]. destruct (f a); cbn; lia. Qed.
+
+(* the number of edges can only shrink, and not below the number of non-trivial edges
+   (nor below 1 for a row that has an edge) *)
+Lemma drop_padding_length_le es : length (drop_padding_edges es) <= length es.
+Proof.
+  destruct (drop_padding_cases es) as [E|E]; rewrite E; [lia|].
+  destruct es as [|e more]; cbn [length]; [lia|]. pose proof (filter_length_le nontrivial more). lia.
+Qed.
+Lemma drop_padding_length_ge es : length (filter nontrivial es) <= length (drop_padding_edges es).
+Proof. rewrite <- drop_padding_filter. apply filter_length_le. Qed.
+
+(* dropping twice is dropping once: the rows that create a node skip trivial edges again in
+   _parse_row on the tree before the repair, and the model's step_row always does *)
+Lemma drop_padding_idem es : drop_padding_edges (drop_padding_edges es) = drop_padding_edges es.
+Proof.
+  unfold drop_padding_edges. destruct padding_edges_dropped_at_read; [|reflexivity].
+  destruct es as [|e more]; [reflexivity|]. f_equal.
+  apply filter_all. apply forallb_forall. intros x Hx. apply filter_In in Hx. tauto.
+Qed.
+
+(* an injected fault in the first edge survives the read *)
+Lemma drop_padding_first e more :
+  exists more', drop_padding_edges (e :: more) = e :: more'.
+Proof. destruct (drop_padding_cons e more) as (more' & H & _). exists more'. exact H. Qed.
+
+(* the facts above in one statement (props/C15.v) *)
+Lemma padding_read_facts es :
+  hd_error (drop_padding_edges es) = hd_error es /\
+  filter nontrivial (drop_padding_edges es) = filter nontrivial es /\
+  List.incl (drop_padding_edges es) es /\
+  length (filter nontrivial es) <= length (drop_padding_edges es) <= length es /\
+  (forallb nontrivial (tl es) = true -> drop_padding_edges es = es) /\
+  (padding_edges_dropped_at_read = false -> drop_padding_edges es = es) /\
+  drop_padding_edges (drop_padding_edges es) = drop_padding_edges es.
+Proof.
+  split; [apply drop_padding_hd|]. split; [apply drop_padding_filter|]. split; [apply drop_padding_incl|].
+  split; [split; [apply drop_padding_length_ge|apply drop_padding_length_le]|].
+  split; [apply drop_padding_id|]. split; [apply drop_padding_off|apply drop_padding_idem].
+Qed.
+
 (* ---------------------------------------------------------------- reading a row *)
 Lemma instantiate_unfold c r :
   instantiate c r =
@@ -117,7 +235,7 @@ Lemma instantiate_unfold c r :
         | Ok m =>
           match mapM (render c) (r_list r) with
           | Err e => Err e
-          | Ok l => Ok (Some (mkI (r_type r) id es true m l (r_vars r) (r_save r) (r_objid r) (r_noresp r)
+          | Ok l => Ok (Some (mkI (r_type r) id (drop_padding_edges es) true m l (r_vars r) (r_save r) (r_objid r) (r_noresp r)
                                   (r_url r) (r_headers r) (r_dsheet r) (r_drow r) (r_targs r)))
           end
         end
@@ -262,7 +380,7 @@ Lemma instantiate_some c r i :
   exists id es m l,
     render c (r_id r) = Ok id /\ mapM (render_edge c) (r_edges r) = Ok es /\
     render c (r_main r) = Ok m /\ mapM (render c) (r_list r) = Ok l /\
-    i = mkI (r_type r) id es true m l (r_vars r) (r_save r) (r_objid r) (r_noresp r)
+    i = mkI (r_type r) id (drop_padding_edges es) true m l (r_vars r) (r_save r) (r_objid r) (r_noresp r)
             (r_url r) (r_headers r) (r_dsheet r) (r_drow r) (r_targs r).
 Proof.
   rewrite instantiate_unfold.
@@ -407,27 +525,102 @@ Proof.
     rewrite E. cbn. rewrite crit_eq by in_list. reflexivity.
 Qed.
 
-Theorem detect_goto_arity fuel wb dm d t0 p r s bt (dests : list str) :
+(* The arity of a go_to row is judged on the edges that are READ (FlowParser._parse_next_row):
+   the rendered edge cells of the row, minus the padding the tree at hand drops.  [edges_read]
+   is that list, in the state the row is reached in. *)
+Definition edges_read (c : ctx) (r : frow) : result cls (list iedge) :=
+  match mapM (render_edge c) (r_edges r) with
+  | Ok es => Ok (drop_padding_edges es)
+  | Err e => Err e
+  end.
+
+Lemma instantiate_edges_read c r i : instantiate c r = Ok (Some i) -> edges_read c r = Ok (i_edges i).
+Proof.
+  intros H. apply instantiate_some in H as (_ & id & es & m & l & _ & Hes & _ & _ & ->).
+  unfold edges_read. rewrite Hes. reflexivity.
+Qed.
+
+Lemma mapM_render_edge_length c l es : mapM (render_edge c) l = Ok es -> length es = length l.
+Proof.
+  revert es. induction l as [|e l IH]; intros es Hes; cbn in Hes.
+  - injection Hes as <-. reflexivity.
+  - destruct (render_edge c e); [|discriminate].
+    destruct (mapM (render_edge c) l) as [es'|]; [|discriminate].
+    injection Hes as <-. cbn. rewrite (IH es' eq_refl). reflexivity.
+Qed.
+
+Lemma edges_read_length_le c r es : edges_read c r = Ok es -> length es <= length (r_edges r).
+Proof.
+  unfold edges_read. destruct (mapM (render_edge c) (r_edges r)) as [es0|] eqn:E; [|discriminate].
+  intros H. injection H as <-. rewrite <- (mapM_render_edge_length _ _ _ E). apply drop_padding_length_le.
+Qed.
+
+Theorem detect_goto_arity fuel wb dm d t0 p r s bt (dests : list str) es :
+  compile fuel wb dm = Ok d ->
+  nth_error (rows_of wb t0) p = Some r -> r_type r = TGoto ->
+  evaluated_at fuel wb dm t0 p s bt ->
+  edges_read (f_ctx s) r = Ok es ->                       (* the edges of the row as the tool reads them *)
+  length dests <> 1 -> length dests <> length es ->
+  compile fuel (set_row wb t0 p (set_list r (map (fun s => [Lit s]) dests))) dm = Err EGotoArity.
+Proof.
+  intros Hok Hr Ht Hev Hread H1 H2.
+  destruct (evaluated_ok _ _ _ _ _ _ _ _ _ Hok Hr Hev) as (Hinc & i & st & Hi & _).
+  apply instantiate_some in Hi as (_ & id & es0 & m & l & Hid & Hes & Hm & Hl & _).
+  unfold edges_read in Hread. rewrite Hes in Hread. injection Hread as <-.
+  apply (row_fault_fatal fuel wb dm t0 p r (set_list r (map (fun s => [Lit s]) dests)) s bt); try assumption; try reflexivity.
+  unfold visit_row. rewrite instantiate_unfold. cbn [set_list r_inc r_id r_edges r_main r_list r_type r_vars r_save r_objid r_noresp r_url r_headers r_dsheet r_drow r_targs].
+  rewrite Hinc, Hid, Hes, Hm, mapM_render_lits. cbn [i_type]. rewrite Ht.
+  rewrite step_row_goto_arity; try reflexivity; cbn [i_list i_edges]; rewrite map_length; assumption.
+Qed.
+
+(* corollaries in terms of the edge cells as WRITTEN.  More destinations than edge cells is an
+   arity fault on every tree (reading can only drop edges) *)
+Theorem detect_goto_arity_too_many fuel wb dm d t0 p r s bt (dests : list str) :
+  compile fuel wb dm = Ok d ->
+  nth_error (rows_of wb t0) p = Some r -> r_type r = TGoto ->
+  evaluated_at fuel wb dm t0 p s bt ->
+  length dests <> 1 -> length (r_edges r) < length dests ->
+  compile fuel (set_row wb t0 p (set_list r (map (fun s => [Lit s]) dests))) dm = Err EGotoArity.
+Proof.
+  intros Hok Hr Ht Hev H1 H2.
+  destruct (evaluated_ok _ _ _ _ _ _ _ _ _ Hok Hr Hev) as (_ & i & st & Hi & _).
+  apply instantiate_edges_read in Hi.
+  apply (detect_goto_arity fuel wb dm d t0 p r s bt dests (i_edges i)); try assumption.
+  pose proof (edges_read_length_le _ _ _ Hi). lia.
+Qed.
+
+(* a row whose edge cells other than the first are not blank padding (in the state the row is
+   reached in) is read as written: the count of the cells decides *)
+Theorem detect_goto_arity_unpadded fuel wb dm d t0 p r s bt (dests : list str) es :
+  compile fuel wb dm = Ok d ->
+  nth_error (rows_of wb t0) p = Some r -> r_type r = TGoto ->
+  evaluated_at fuel wb dm t0 p s bt ->
+  mapM (render_edge (f_ctx s)) (r_edges r) = Ok es -> forallb nontrivial (tl es) = true ->
+  length dests <> 1 -> length dests <> length (r_edges r) ->
+  compile fuel (set_row wb t0 p (set_list r (map (fun s => [Lit s]) dests))) dm = Err EGotoArity.
+Proof.
+  intros Hok Hr Ht Hev Hes Hnp H1 H2.
+  apply (detect_goto_arity fuel wb dm d t0 p r s bt dests es); try assumption.
+  - unfold edges_read. rewrite Hes, drop_padding_id by exact Hnp. reflexivity.
+  - rewrite (mapM_render_edge_length _ _ _ Hes). exact H2.
+Qed.
+
+(* on a tree that does not drop padding at read, every edge cell counts (the statement C15
+   carried before /repo a05766f) *)
+Theorem detect_goto_arity_as_written fuel wb dm d t0 p r s bt (dests : list str) :
+  padding_edges_dropped_at_read = false ->
   compile fuel wb dm = Ok d ->
   nth_error (rows_of wb t0) p = Some r -> r_type r = TGoto ->
   evaluated_at fuel wb dm t0 p s bt ->
   length dests <> 1 -> length dests <> length (r_edges r) ->
   compile fuel (set_row wb t0 p (set_list r (map (fun s => [Lit s]) dests))) dm = Err EGotoArity.
 Proof.
-  intros Hok Hr Ht Hev H1 H2.
-  destruct (evaluated_ok _ _ _ _ _ _ _ _ _ Hok Hr Hev) as (Hinc & i & st & Hi & _).
-  apply instantiate_some in Hi as (_ & id & es & m & l & Hid & Hes & Hm & Hl & _).
-  apply (row_fault_fatal fuel wb dm t0 p r (set_list r (map (fun s => [Lit s]) dests)) s bt); try assumption; try reflexivity.
-  unfold visit_row. rewrite instantiate_unfold. cbn [set_list r_inc r_id r_edges r_main r_list r_type r_vars r_save r_objid r_noresp r_url r_headers r_dsheet r_drow r_targs].
-  rewrite Hinc, Hid, Hes, Hm, mapM_render_lits. cbn [i_type]. rewrite Ht.
-  rewrite step_row_goto_arity; try reflexivity; cbn [i_list i_edges]; rewrite map_length; try assumption.
-  assert (Hlen : length es = length (r_edges r)).
-  { clear -Hes. revert es Hes. induction (r_edges r) as [|e l IH]; intros es Hes; cbn in Hes.
-    - injection Hes as <-. reflexivity.
-    - destruct (render_edge (f_ctx s) e); [|discriminate].
-      destruct (mapM (render_edge (f_ctx s)) l) as [es'|]; [|discriminate].
-      injection Hes as <-. cbn. rewrite (IH es' eq_refl). reflexivity. }
-  rewrite Hlen. exact H2.
+  intros Hp Hok Hr Ht Hev H1 H2.
+  destruct (evaluated_ok _ _ _ _ _ _ _ _ _ Hok Hr Hev) as (_ & i & st & Hi & _).
+  apply instantiate_some in Hi as (_ & id & es & m & l & _ & Hes & _ & _ & _).
+  apply (detect_goto_arity fuel wb dm d t0 p r s bt dests es); try assumption.
+  - unfold edges_read. rewrite Hes, drop_padding_off by exact Hp. reflexivity.
+  - rewrite (mapM_render_edge_length _ _ _ Hes). exact H2.
 Qed.
 
 (* ---- edge from a row that does not exist *)
@@ -565,23 +758,25 @@ Proof.
   cbn [mapM]. unfold render_edge at 1. cbn [e_from e_cond]. rewrite render_lit, Emore, Hm, Hl.
   cbn [i_type].
   set (e' := mkIE (strip ghost) (e_cond e0)).
-  set (i' := mkI (r_type r) id (e' :: es') true m l (r_vars r) (r_save r) (r_objid r) (r_noresp r)
+  (* the injected first edge survives the read, whatever the tree drops *)
+  destruct (drop_padding_first e' es') as [more' Hdp]. rewrite Hdp.
+  set (i' := mkI (r_type r) id (e' :: more') true m l (r_vars r) (r_save r) (r_objid r) (r_noresp r)
                  (r_url r) (r_headers r) (r_dsheet r) (r_drow r) (r_targs r)).
   assert (Hstep : step_row s i' = Err EEdgeUnknownRow).
   { destruct Ht as [Hn|[Hx|[Hx|Hx]]].
     - (* node row: action and node of the valid row *)
       unfold visit_row in Hst. rewrite Hi0 in Hst. subst i. cbn [i_type] in Hst.
-      assert (Hs : exists s', step_row s (mkI (r_type r) id (ie0 :: es') true m l (r_vars r) (r_save r) (r_objid r)
+      assert (Hs : exists s', step_row s (mkI (r_type r) id (drop_padding_edges (ie0 :: es')) true m l (r_vars r) (r_save r) (r_objid r)
                                             (r_noresp r) (r_url r) (r_headers r) (r_dsheet r) (r_drow r) (r_targs r)) = Ok s').
       { destruct (r_type r); try discriminate;
           (match type of Hst with (match ?X with Ok _ => _ | Err _ => _ end) = _ => destruct X as [s'|]; [eauto|discriminate] end). }
       destruct Hs as [s' Hs].
       apply step_row_node_inv in Hs as (Ha & s1 & x & Hnode); [|exact Hn|reflexivity].
-      apply (step_row_node_unknown s i' e' es' s1 x); try reflexivity; try assumption.
-    - apply (step_row_exit_unknown s i' e' es'); try reflexivity; try assumption. left. exact Hx.
-    - apply (step_row_exit_unknown s i' e' es'); try reflexivity; try assumption. right. exact Hx.
-    - apply (step_row_noop_unknown s i' e' es'); try reflexivity; try assumption. }
-  fold e'. fold i'.
+      apply (step_row_node_unknown s i' e' more' s1 x); try reflexivity; try assumption.
+    - apply (step_row_exit_unknown s i' e' more'); try reflexivity; try assumption. left. exact Hx.
+    - apply (step_row_exit_unknown s i' e' more'); try reflexivity; try assumption. right. exact Hx.
+    - apply (step_row_noop_unknown s i' e' more'); try reflexivity; try assumption. }
+  fold i'.
   destruct Ht as [Hn|[Hx|[Hx|Hx]]].
   - destruct (r_type r); try discriminate; rewrite Hstep; reflexivity.
   - rewrite Hx in *. rewrite Hstep. reflexivity.
